@@ -200,3 +200,63 @@ Definition gbus_of (gens : list gen) : list nat :=
 Definition gens_at_bus_old (gens : list gen) (k : nat) : list nat := positions_eq k (gbus_of gens) 0.
 Definition gens_at_bus_rows (gens : list gen) (k : nat) : list nat :=
   map (fun p => nth p (on_rows gens) 0%nat) (positions_eq k (gbus_of gens) 0).
+
+(* ---------- bus demand columns during the q-limit loop (run_newton_raphson_pf.py:182-250): the PD/QD backup / restore history.
+   bus_backup_p_q = bus[:, [PD, QD]] before the loop.  Every pass: PF on the current PD/QD, then gen PG and bus PD are restored
+   from the backups, ppci_to_pfsoln writes gen PG/QG (QG = 0 for switched-off rows, pfsoln.py:118-119) and possibly bus PD
+   (distributed slack); on a violation the new rows get QG = their limit, and for EVERY limited row i (old and new, in order,
+   duplicates included) bus[GEN_BUS i, [PD, QD]] -= gen[i, [PG, QG]].  After the loop QD is restored from the backup when some row was
+   limited; PD is what the last pfsoln left.
+   pass = the observable data of one violating pass: bus PD and gen PG after ppci_to_pfsoln (oracle), the rows limited by this pass
+   with the limit value written to QG. *)
+Record pass := mkPass { ps_pd1 : list Q; ps_pg : list Q; ps_new : list (nat * Q) }.
+Record dst := mkDst { ds_lim : list nat; ds_pd : list Q; ds_qd : list Q }.
+
+Fixpoint sub_at (col : list Q) (k : nat) (x : Q) : list Q :=          (* col[k] -= x *)
+  match col, k with
+  | [], _ => []
+  | c :: t, O => qsub c x :: t
+  | c :: t, S k' => c :: sub_at t k' x
+  end.
+Definition dec_all (gbus : nat -> nat) (f : nat -> Q) (rows : list nat) (col : list Q) : list Q :=
+  fold_left (fun c i => sub_at c (gbus i) (f i)) rows col.
+(* gen[i, QG] when the demand is adjusted: the limit for the rows limited by this pass (fixedQg, later assignment wins), zero for the
+   rows switched off by an earlier pass *)
+Definition qg_now (new : list (nat * Q)) (i : nat) : Q := match lookup_fixed new i with Some q => q | None => 0 end.
+Definition dstep (gbus : nat -> nat) (s : dst) (p : pass) : dst :=
+  let lim' := ds_lim s ++ map fst (ps_new p) in
+  mkDst lim'
+        (dec_all gbus (fun i => nth i (ps_pg p) 0) lim' (ps_pd1 p))
+        (dec_all gbus (qg_now (ps_new p)) lim' (ds_qd s)).
+Definition drun (gbus : nat -> nat) (pd0 qd0 : list Q) (passes : list pass) : dst :=
+  fold_left (dstep gbus) passes (mkDst [] pd0 qd0).
+(* the demand seen by the PF call after each pass *)
+Fixpoint dtrace (gbus : nat -> nat) (s : dst) (passes : list pass) : list dst :=
+  match passes with [] => [] | p :: t => let s' := dstep gbus s p in s' :: dtrace gbus s' t end.
+(* after the loop: (PD, QD); last_pd1 = bus PD after the pfsoln of the pass that found no violation *)
+Definition dfinal (qd0 : list Q) (s : dst) (last_pd1 : list Q) : list Q * list Q :=
+  (last_pd1, if Nat.eqb (length (ds_lim s)) 0 then ds_qd s else qd0).
+(* a pass limits rows that are not limited yet (viol_max / viol_min filter on gen_status) *)
+Fixpoint fresh_passes (lim : list nat) (passes : list pass) : bool :=
+  match passes with
+  | [] => true
+  | p :: t => forallb (fun i => negb (memn i lim)) (map fst (ps_new p)) && fresh_passes (lim ++ map fst (ps_new p)) t
+  end.
+Definition gbus_of_list (gb : list nat) (i : nat) : nat := nth i gb 0%nat.
+Definition run_demand (gb : list nat) (pd0 qd0 : list Q) (passes : list pass) (last_pd1 : list Q) : out :=
+  let gbus := gbus_of_list gb in
+  let s := drun gbus pd0 qd0 passes in
+  OL [ OL (map (fun d => OL [olist oq (ds_pd d); olist oq (ds_qd d)]) (dtrace gbus (mkDst [] pd0 qd0) passes));
+       OL [olist oq (fst (dfinal qd0 s last_pd1)); olist oq (snd (dfinal qd0 s last_pd1))];
+       OB (fresh_passes [] passes) ].
+
+(* ---------- q limits of a gen row: min_q_mvar / max_q_mvar of the gen table (None = NaN / column missing).
+   pd2ppc._replace_nans_with_default_limits (auxiliary.py:1694-1703) replaces NaN by -/+ q_lim_default before nan_to_num; after
+   "fix: a recycled power flow with recycle["gen"] keeps the default q limits of gens without limits" the recycled path
+   (powerflow.py:118-124) does the same.  Before, the recycled path applied nan_to_num only: NaN -> 0. *)
+Definition row_limits (qdef : Q) (qmin qmax : option Q) : Q * Q :=
+  (match qmin with Some x => x | None => qopp qdef end, match qmax with Some x => x | None => qdef end).
+Definition row_limits_recycled_old (qmin qmax : option Q) : Q * Q :=
+  (match qmin with Some x => x | None => 0 end, match qmax with Some x => x | None => 0 end).
+Definition run_row_limits (qdef : Q) (rows : list (option Q * option Q)) : out :=
+  OL (map (fun r => let l := row_limits qdef (fst r) (snd r) in OL [oq (fst l); oq (snd l)]) rows).
